@@ -44,9 +44,12 @@ def run(tier, replay=None):
     out.add_tlc(r2)
     texts = [c["text"] for c in r1.tagged("CASE")] + [c["text"] for c in r2.tagged("CASE") if c["shape"] in ("forced", "data")]
     import absprog
-    texts += list(corpus.all_programs().values()) + corpus.VALUE_PROGRAMS + CSR_PROGRAMS + corpus.SHARED_PROGRAMS
+    texts += list(corpus.all_programs().values()) + corpus.VALUE_PROGRAMS + CSR_PROGRAMS + corpus.CSR_PROGRAMS + corpus.SHARED_PROGRAMS
     texts += [absprog.render(p) for p in absprog.PROGRAMS.values()]
     texts += shared_programs(tier, out, part=1)
+    rcsr = run_tlc("Gen_Csr", cfg="Gen_Csr", simulate=(150 if tier == "quick" else 3000), depth=10, workers=4, seed_=seed() * 67 + 3)
+    out.add_tlc(rcsr)
+    texts += [c["text"] for c in rcsr.tagged("CASE")]
     texts = list(dict.fromkeys(texts))
     if replay:
         texts = [json.load(open(replay))["witness"]["text"]]
